@@ -381,7 +381,8 @@ impl Space for DurationMatrix {
                     out.lockstep("Duration::round(invalid options)", &Err::<(), _>(ErrorKind::Range), &got, |_, _| true, attrs);
                 }
                 Verdict::Accept(res) => {
-                    if bracket_out_of_range(res.smallest, res.increment, false) {
+                    // (a blank duration ends where it starts: the difference is zero before any bracket is computed)
+                    if bracket_out_of_range(res.smallest, res.increment, false) && !dur.is_zero() {
                         out.lockstep("Duration::round(valid options, bracket out of range)", &Err::<(), _>(ErrorKind::Range), &got, |_, _| true, attrs);
                         continue;
                     }
@@ -556,6 +557,7 @@ fn durations() -> Vec<(&'static str, Duration, U)> {
         ("4567 ms 8900 us", dur10([0., 0., 0., 0., 0., 0., 0., 4567., 8900., 10.]).unwrap(), U::Ms),
         ("4567 us 8900 ns", dur10([0., 0., 0., 0., 0., 0., 0., 0., 4567., 8900.]).unwrap(), U::Us),
         ("-4567 us -8900 ns", dur10([0., 0., 0., 0., 0., 0., 0., 0., -4567., -8900.]).unwrap(), U::Us),
+        ("PT0S (blank)", dur10([0.; 10]).unwrap(), U::Ns),
     ]
 }
 
